@@ -156,6 +156,23 @@ class JoiningEdge(DirectedEdge):
                 self.add_to_universe(uni)
 
 
+class BondEdge(UnDirectedEdge):
+    """
+    An undirected edge type with order-insensitive VALUE equality: a--b equals
+    b--a (and any other bond between the same two vertices).  The library's own
+    documentation says such == duplicates are allowed as distinct links.
+    """
+
+    def _ends_key(self):
+        return frozenset(id(v) for v in self.vertices)
+
+    def __eq__(self, other):
+        return type(other) is type(self) and other._ends_key() == self._ends_key()
+
+    def __hash__(self):
+        return id(self) >> 4
+
+
 class _FalsyMeta(type):
     """Classes made with this metaclass are falsy (e.g. len(cls) counts something)."""
 
@@ -210,6 +227,7 @@ EDGE_CLASSES = {
     "FalsyClassEdge": FalsyClassEdge,
     "FrozenEdge": FrozenEdge,
     "JoiningEdge": JoiningEdge,
+    "BondEdge": BondEdge,
 }
 ALL_CLASSES = dict(VERTEX_CLASSES)
 ALL_CLASSES.update(UNIVERSE_CLASSES)
@@ -223,7 +241,7 @@ def is_directed(clsname):
 
 
 def is_undirected(clsname):
-    return clsname in ("UnDirectedEdge", "SubUnDirected", "FalsyClassEdge")
+    return clsname in ("UnDirectedEdge", "SubUnDirected", "FalsyClassEdge", "BondEdge")
 
 
 # --- filter pool (pure, module level, picklable, stable verdicts) -----------
